@@ -143,6 +143,9 @@ fn escape_string(s: &str) -> (r: String) ensures gql_string_decode(r@) == Some(s
 
 UNITS['c17_input_value'] = (['C17'], sdl_unit)
 SEARCH['c17_input_value'] = ['c17_input_value']
-BOUNDED = {'C17': [dict(case='c17_sdl', function='src/registry/export_sdl.rs::write_description (+ the export_type / export_fields callers, through Schema::sdl_with_options) read back by parse_schema',
+BOUNDED = {'C17': [dict(case='c17_schema', function='src/registry/export_sdl.rs::Registry::{export_sdl, export_type, export_fields, write_implements} and the dynamic register() functions that fill the registry, read back by parse_schema',
+                        bound='one dynamic schema with every kind of type (enum with per-value descriptions / deprecation, interfaces implementing interfaces, an `extends` object, union, input object, nested list / non-null types, argument defaults) x 20 option sets (each option alone + 12 seeded combinations)',
+                        why='900 lines of writeln! plumbing over the registry with closures and iterator chains: outside Verus; only the escaping / input-value kernels are under contract'),
+                   dict(case='c17_sdl', function='src/registry/export_sdl.rs::write_description (+ the export_type / export_fields callers, through Schema::sdl_with_options) read back by parse_schema',
                         bound='10 descriptions x 7 deprecation reasons x 3 defaults x {block, single-line} (about 280 dynamic schemas per run, seeded thinning)',
                         why='write_description is String::replace / contains / repeat / format! plumbing with no contract-sized decision; Verus has no byte-level str reasoning; the re-parse half is the pest parser')]}
